@@ -65,3 +65,37 @@ Example generator_runs_once_children_once :
   map log_of (run_phist gen_history) =
   [[2; 3; 10; 11; 6; 7; 40200; 40201; 40202; 40203]; [10; 11]].
 Proof. vm_compute. reflexivity. Qed.
+
+
+(* F29 (C10): an ordinary task writes g7 into the directory of pattern 9 as a plain path product; a
+   consumer of the pattern reads it.  After an edit of the writer's source file the dry run announces
+   the writer (code 6) and reports the consumer unchanged (code 3) - the edge writer -> g7 -> consumer
+   exists only once the consumer's pattern has been resolved, after the marker was handed out - and
+   the real build that follows executes both (code 0). *)
+Definition cfg_dry : config := mkConfig false true None None None.
+Definition writer7 : ptask :=
+  mkPT (mkTask 1 1 [101] [10907] [] None false [] false 0%Z [] []) [] [] false false.
+Definition consumer9b : ptask :=
+  mkPT (mkTask 2 1 [] [121] [] None false [] false 0%Z [] []) [9] [] false false.
+Definition dry_pattern_history : list phop :=
+  [PSet 101 5; PSet 10900 7; PBuild cfg0 [writer7; consumer9b] [] [1; 2]; PBuild cfg0 [writer7; consumer9b] [] [1; 2];
+   PSet 101 6; PBuild cfg_dry [writer7; consumer9b] [] [1; 2]; PBuild cfg0 [writer7; consumer9b] [] [1; 2]].
+
+Theorem dry_run_misses_pattern_consumer_refuted :
+  map reports_of (skipn 2 (run_phist dry_pattern_history)) =
+  [[(1, ocode OWould); (2, ocode OSkipUnchanged)]; [(1, ocode OSuccess); (2, ocode OSuccess)]].
+Proof. vm_compute. reflexivity. Qed.
+
+(* F30 (C17): a persist task whose product is a directory pattern fails in every build (the persist
+   hook asks the provisional node for a state it does not have); its function never runs (empty
+   log), also under --force; the consumer of the pattern is skipped because its predecessor failed *)
+Definition cfg_force : config := mkConfig true false None None None.
+Definition persist_producer : ptask :=
+  mkPT (mkTask 1 1 [101] [] [] None false [] true 0%Z [] []) [] [1] false false.
+Definition persist_pattern_history : list phop :=
+  [PSet 101 6; PBuild cfg0 [persist_producer; consumer3] [] [1; 3]; PBuild cfg_force [persist_producer; consumer3] [] [1; 3]].
+
+Theorem persist_pattern_producer_refuted :
+  map (fun o => match o with (x, r, l, _, _) => (x, r, l) end) (run_phist persist_pattern_history) =
+  [(1, [(1, ocode OFail); (3, ocode OSkipPrevFailed)], []); (1, [(1, ocode OFail); (3, ocode OSkipPrevFailed)], [])].
+Proof. vm_compute. reflexivity. Qed.
